@@ -187,7 +187,13 @@ func DecodeIdFromList(cborData []byte) (int, error) {
 	if listLen == 0 {
 		return 0, errors.New("cannot return first item from empty list")
 	}
-	if listLen < int(CborMaxUintSimple) {
+	// The shortcut reads the first element straight from byte 1, which is only
+	// where the first element lives when the list header is a single byte:
+	// a minimal definite-length header or the indefinite-length marker
+	oneByteHeader := (cborData[0] > CborTypeArray &&
+		cborData[0] <= CborTypeArray+CborMaxUintSimple) ||
+		cborData[0] == 0x9f
+	if oneByteHeader && listLen < int(CborMaxUintSimple) {
 		if cborData[1] <= CborMaxUintSimple {
 			return int(cborData[1]), nil
 		}
